@@ -166,6 +166,215 @@ def task_a(t):
 
 
 # ---------------------------------------------------------------------------
+# Part C: BufferedWriter's own view after EVERY operation, richer schema
+# (sortable ID/TEXT/KEYWORD columns, i.e. variable-width columns) and sparse
+# documents (which leave holes at the end of columns)
+
+C_TEXTS = {"a": u"alfa bravo", "b": u"bravo charlie charlie"}
+
+
+def c_schema():
+    from whoosh import fields
+    return fields.Schema(key=fields.ID(stored=True, unique=True, sortable=True),
+                         text=fields.TEXT(stored=True, sortable=True),
+                         n=fields.NUMERIC(int, sortable=True),
+                         tag=fields.KEYWORD(stored=True, vector=True, sortable=True))
+
+
+def c_apply(w, op):
+    k = op[0]
+    if k == "add":
+        w.add_document(key=op[1], text=C_TEXTS[op[2]], n=len(op[1]) + ord(op[2]), tag=op[2] + u" t")
+    elif k == "adds":
+        w.add_document(key=op[1])
+    elif k == "upd":
+        w.update_document(key=op[1], text=C_TEXTS[op[2]], n=ord(op[2]), tag=op[2])
+    elif k == "upds":
+        w.update_document(key=op[1])
+    elif k == "del":
+        w.delete_by_term("key", op[1])
+    else:
+        raise ValueError(op)
+
+
+def c_op_lists(maxlen):
+    alpha = []
+    for k in (u"k1", u"k2"):
+        for t in ("a", "b"):
+            alpha.append(["add", k, t])
+            alpha.append(["upd", k, t])
+        alpha.append(["adds", k])
+        alpha.append(["upds", k])
+        alpha.append(["del", k])
+    for n in range(1, maxlen + 1):
+        for seq in itertools.product(alpha, repeat=n):
+            live = set()
+            ok = True
+            for op in seq:
+                if op[0] in ("add", "adds"):
+                    if op[1] in live:
+                        ok = False
+                        break
+                    live.add(op[1])
+                elif op[0] in ("upd", "upds"):
+                    live.add(op[1])
+                else:
+                    live.discard(op[1])
+            if ok:
+                yield [list(o) for o in seq]
+
+
+def c_dump(r, schema):
+    """Canonical logical content seen through reader r, keyed by document key."""
+    out = {"docs": [], "lex": {}}
+    keyof = {}
+    colfields = [f for f in sorted(schema.names()) if schema[f].column_type is not None]
+    for docnum, sf in r.iter_docs():
+        keyof[docnum] = sf["key"]
+        cols = []
+        for f in colfields:
+            if not r.has_column(f):
+                cols.append([f, "nocolumn"])
+                continue
+            try:
+                cr = r.column_reader(f)
+                v = cr[docnum]
+                cols.append([f, repr(v)])
+            except Exception as e:
+                cols.append([f, "exc:%s" % type(e).__name__])
+        vec = None
+        if r.has_vector(docnum, "tag"):
+            vec = sorted(t for t, _ in r.vector_as("frequency", docnum, "tag"))
+        lens = [[f, r.doc_field_length(docnum, f)] for f in ("text", "tag")]
+        out["docs"].append([sf["key"], sorted(sf.items()), cols, vec, lens])
+    out["docs"].sort()
+    for fname in ("key", "text", "tag"):
+        terms = {}
+        for t in r.lexicon(fname):
+            m = r.postings(fname, t)
+            posts = []
+            while m.is_active():
+                if m.id() in keyof:
+                    posts.append([keyof[m.id()], round(m.weight(), 5)])
+                m.next()
+            if posts:
+                terms[t.decode("utf8")] = sorted(posts)
+        out["lex"][fname] = terms
+    out["doc_count"] = r.doc_count()
+    return out
+
+
+def c_sorted(searcher):
+    """Keys in the order of each sortable field (ties broken by key)"""
+    from whoosh import query as Q
+    out = {}
+    for f in ("key", "text", "tag", "n"):
+        try:
+            r = searcher.search(Q.Every(), sortedby=[f, "key"], limit=None)
+            out[f] = [h["key"] for h in r]
+        except Exception as e:
+            out[f] = "exc:%s" % type(e).__name__
+    return out
+
+
+def c_reference(ops, seed):
+    """Dump after every prefix, plain writer, one transaction per operation."""
+    from whoosh.filedb.filestore import RamStorage
+    random.seed(seed)
+    ix = RamStorage().create_index(c_schema())
+    views = []
+    for op in ops:
+        w = ix.writer()
+        c_apply(w, op)
+        w.commit()
+        with ix.searcher() as s:
+            views.append((c_dump(s.reader(), ix.schema), c_sorted(s)))
+    return views
+
+
+def c_buffered(ops, limit, storage, work, seed):
+    """(views after every op through the BufferedWriter's own searcher, final dump after close)"""
+    from whoosh import writing
+    random.seed(seed + 1)
+    st = open_storage(storage, work)
+    ix = st.create_index(c_schema())
+    bw = writing.BufferedWriter(ix, period=None, limit=limit)
+    views = []
+    try:
+        for op in ops:
+            c_apply(bw, op)
+            s = bw.searcher()
+            try:
+                views.append((c_dump(s.reader(), ix.schema), c_sorted(s)))
+            finally:
+                s.close()
+    finally:
+        bw.close()
+    with st.open_index().searcher() as s:
+        final = (c_dump(s.reader(), ix.schema), c_sorted(s))
+    return views, final
+
+
+def _c_diff(ref, got):
+    out = []
+    for part, a, b in (("dump", ref[0], got[0]), ("sorted", ref[1], got[1])):
+        for k in a:
+            if a[k] != b.get(k):
+                out.append("%s.%s" % (part, k))
+    return out
+
+
+def task_c(t):
+    nsl, sl, maxlen, limits, storages, seed = t
+    acc = core.Acc()
+    work = core.fresh_dir("c18c")
+    try:
+        for i, ops in enumerate(c_op_lists(maxlen)):
+            if i % nsl != sl:
+                continue
+            ref = c_reference(ops, seed)
+            for storage in storages:
+                for limit in limits:
+                    acc.count("evaluations")
+                    acc.count("partC_cases")
+                    case = {"part": "C", "ops": ops, "storage": storage, "limit": limit, "seed": seed}
+                    try:
+                        views, final = c_buffered(ops, limit, storage, work, seed)
+                    except Exception as e:
+                        tb = traceback.extract_tb(e.__traceback__)
+                        fr = [f for f in tb if "/whoosh/" in f.filename] or list(tb)
+                        where = "%s:%s" % (fr[-1].filename.split("/")[-1], fr[-1].name)
+                        acc.violation("C|exc:%s@%s" % (type(e).__name__, where), case,
+                                      "BufferedWriter(limit=%d) on %s raised %r at %s for ops %r" % (limit, storage, e, where, ops))
+                        continue
+                    if ref[-1][0]["docs"]:
+                        acc.count("distinct_nontrivial")
+                    bad = None
+                    for j, (rv, gv) in enumerate(zip(ref, views)):
+                        acc.count("partC_views_compared")
+                        d = _c_diff(rv, gv)
+                        if d:
+                            bad = ("view", j, d, rv, gv)
+                            break
+                    if bad is None:
+                        d = _c_diff(ref[-1], final)
+                        if d:
+                            bad = ("closed", len(ops) - 1, d, ref[-1], final)
+                    if bad:
+                        kind, j, d, rv, gv = bad
+                        acc.violation("C|%s|differs:%s" % (kind, "+".join(d)), case,
+                                      "ops %r, BufferedWriter(limit=%d) on %s: after op %d the %s differs in %s: got %r, reference %r"
+                                      % (ops, limit, storage, j, "writer's own searcher" if kind == "view" else "index after close()", d,
+                                         [gv[0].get(k.split(".", 1)[1]) if k.startswith("dump.") else gv[1].get(k.split(".", 1)[1]) for k in d],
+                                         [rv[0].get(k.split(".", 1)[1]) if k.startswith("dump.") else rv[1].get(k.split(".", 1)[1]) for k in d]))
+            if i % 200 == 5:
+                acc.sample({"part": "C", "ops": ops, "reference_docs": [d[0] for d in ref[-1][0]["docs"]]})
+    finally:
+        shutil.rmtree(work, ignore_errors=True)
+    return acc.result()
+
+
+# ---------------------------------------------------------------------------
 # Part B
 
 class _ThreadingShim(object):
@@ -495,6 +704,8 @@ def task_b(t):
 def task(t):
     if t[0] == "A":
         return task_a(t[1])
+    if t[0] == "C":
+        return task_c(t[1])
     return task_b(t[1])
 
 
@@ -510,15 +721,24 @@ def run(ctx):
         bound, cap = 2, 40000
     for sl in range(nsl):
         tasks.append(("A", (nsl, sl, maxlen, FRONTENDS, storages, ctx.seed)))
+    cmax, climits = (2, (1, 2, 3)) if ctx.tier == "quick" else (3, (1, 2, 3, 4))
+    for sl in range(16):
+        tasks.append(("C", (16, sl, cmax, climits, ("ram", "file"), ctx.seed)))
     for cfg in b_configs(ctx.tier):
         tasks.append(("B", (cfg, bound, cap, ctx.seed)))
     ctx.rule = ("Part A: every operation list of length <= %d over {add, update, delete} x 2 keys x 2 texts (adds only of "
                 "non-live keys) through every storage {RAM, file mmap, file no-mmap, copy_to_ram} x {compound, loose} "
                 "x front-end {plain, BufferedWriter limit 1..3, AsyncWriter, SerialMpWriter, MpWriter procs 2 / 3 "
-                "multisegment (real processes, on a subset)} compared with the reference dump; Part B: AsyncWriter vs a "
+                "multisegment (real processes, on a subset)} compared with the reference dump; Part C: every operation "
+                "list of length <= %d over {add, sparse add (key only), update, sparse update, delete} x 2 keys on a "
+                "schema whose ID/TEXT/KEYWORD/NUMERIC fields all have sort columns, through BufferedWriter limit %s on "
+                "{RAM, file}: after EVERY operation the writer's own searcher (stored fields, every column value, "
+                "vectors, field lengths, postings, sort orders) and after close() the reopened index must equal the "
+                "plain-writer reference; Part B: AsyncWriter vs a "
                 "lock-holding plain writer and BufferedWriter shared by two adders, an observer and its timer, every "
                 "schedule with <= B preemptions (storage/lock/sleep points; line-level points inside BufferedWriter); "
-                "states/transitions count Part B scheduling decisions/steps; evaluations count both parts" % maxlen)
+                "states/transitions count Part B scheduling decisions/steps; evaluations count all parts"
+                % (maxlen, cmax, "/".join(map(str, climits))))
     ctx.assumptions = ["reference = plain writer on RamStorage with one transaction per operation",
                        "BufferedWriter.searcher() must show every document whose add_document() had returned before "
                        "the call and nothing that had not been started by its end",
@@ -530,6 +750,15 @@ def run(ctx):
 
 def replay(case):
     core.setup_process(case.get("seed", 0) if "seed" in case else case.get("cfg", {}).get("seed", 0))
+    if case["part"] == "C":
+        work = core.fresh_dir("c18r")
+        ref = c_reference(case["ops"], case["seed"])
+        try:
+            views, final = c_buffered(case["ops"], case["limit"], case["storage"], work, case["seed"])
+        except Exception:
+            return {"ok": False, "what": traceback.format_exc()[-600:]}
+        ok = all(not _c_diff(a, b) for a, b in zip(ref, views)) and not _c_diff(ref[-1], final)
+        return {"ok": ok, "what": "reference %r views %r final %r" % (ref, views, final)}
     if case["part"] == "A":
         work = core.fresh_dir("c18r")
         random.seed(case["seed"])
